@@ -1,6 +1,7 @@
 #!/bin/sh
 # sweep_seeded_parallel.sh [jobs]   like sweep_seeded.sh, but every change is applied to its own scratch worktree of
 # /repo (VERIF_REPO) with its own scratch VERIF_DIR, so /repo is never touched and several run at once.
+# ONLY='C0[457]*' restricts the sweep to ids matching that shell pattern.
 cd /verif; jobs=${1:-3}; out=${OUT:-/tmp/sweep_par.txt}; : > "$out"
 one() {
   d=$(readlink -f "$1"); id=$(basename "$d")
@@ -19,6 +20,7 @@ one() {
 }
 n=0
 for d in seeded/*/; do
+  case "$(basename "$d")" in ${ONLY:-*}) ;; *) continue ;; esac
   one "${d%/}" &
   n=$((n+1)); if [ $((n % jobs)) -eq 0 ]; then wait; fi
 done
